@@ -310,14 +310,14 @@ type objRec struct {
 }
 
 type event struct {
-	D   int      `json:"d"` // 1-based index into the docs file
-	Lo  int64    `json:"lo"`
-	Hi  int64    `json:"hi"`
+	D  int   `json:"d"` // 1-based index into the docs file
+	Lo int64 `json:"lo"`
+	Hi int64 `json:"hi"`
 	// Whole: no byte of the file is missing (intact or xref-damaged)
 	Whole bool     `json:"whole"`
 	Res   string   `json:"res"`
-	MR  string   `json:"mr"`
-	Per []perObj `json:"per"`
+	MR    string   `json:"mr"`
+	Per   []perObj `json:"per"`
 	// not judged: labels for keys and coverage
 	Class  string `json:"class"`
 	Kind   string `json:"kind"`
@@ -395,7 +395,7 @@ func docSpecs(ctx *core.Ctx) []docSpec {
 		specs = append(specs,
 			docSpec{s + 40, shared.DocOptions{Version: pdf.V1_7, Seekable: true, Objects: 60, MaxBody: 900, Bodies: append(plain, shared.BodyBig), Filters: []string{"Flate", "ASCII85"}, Info: true}, "table-big"},
 			docSpec{s + 41, shared.DocOptions{Version: pdf.V1_7, XRefStream: true, Seekable: true, Objects: 60, MaxBody: 900, Bodies: append(plain, shared.BodyBig), Filters: []string{"Flate", "LZW"}}, "xrefstream-big"},
-			docSpec{s + 42, shared.DocOptions{Version: pdf.V1_7, Seekable: false, Objects: 90, MaxBody: 2600, Bodies: append(plain, shared.BodyBig), Info: true}, "table-50k-noseek"})
+			docSpec{s + 42, shared.DocOptions{Version: pdf.V1_7, Seekable: false, Objects: 150, MaxBody: 3200, Bodies: append(plain, shared.BodyBig), Info: true}, "table-50k-noseek"})
 	}
 	return specs
 }
